@@ -26,15 +26,27 @@ func NewRegexpMatcher(include, exclude []*regexp.Regexp) (*RegexpMatcher, error)
 		return nil, ErrNoIncludeRules
 	}
 
+	// group returns the rule as a non-capturing group.
+	// A quote that is not terminated (\Q without \E) extends to the end of the rule, it must not swallow
+	// the closing parenthesis of the group and the rules that follow.
+	group := func(rule string) string {
+		g := "(?:" + rule + ")"
+		if _, err := regexp.Compile(g); err != nil {
+			q := "(?:" + rule + `\E)`
+			if _, err := regexp.Compile(q); err == nil {
+				return q
+			}
+		}
+		return g
+	}
+
 	build := func(rules []*regexp.Regexp) *regexp.Regexp {
 		var regex strings.Builder
 		for i := range rules {
 			if i > 0 {
 				regex.WriteString("|")
 			}
-			regex.WriteString("(?:")
-			regex.WriteString(rules[i].String())
-			regex.WriteString(")")
+			regex.WriteString(group(rules[i].String()))
 		}
 		if s := regex.String(); s != "" {
 			return regexp.MustCompile(s)
